@@ -16,7 +16,15 @@ pub(crate) fn stub_random_state() -> std::hash::RandomState {
 /// behave like ids >= 10^7 in the real one) and the fake slot-0 term, exactly as `Arena::default()`
 /// builds it apart from the sizes.
 pub(crate) fn small_arena(table: usize) -> Arena {
-    small_arena_cap(table, 8)
+    // allocator-zeroed table (as `Arena::default()` builds it): the C10 harnesses index it with
+    // SYMBOLIC ids/keys, for which one zeroed array object is far cheaper than individually
+    // written cells (1 GB vs > 14 GB); `small_arena_cap` below is for CONCRETE ids
+    let mut s = Arena {
+        terms: Vec::with_capacity(8),
+        ids: vec![0; table],
+    };
+    s.terms.push(HpoTermInternal::default());
+    s
 }
 
 /// same with an explicit capacity of the term buffer (fake term included): the buffer is one CBMC
